@@ -21,6 +21,7 @@ type C14Op struct {
 	DNS  bool   `json:"dns"`
 	Ms   int    `json:"ms"`
 	Fail bool   `json:"fail"` // write: the outbound send fails (unreachable network, port 0, ...)
+	Hold bool   `json:"hold"` // reply: still being relayed to the client while the next operation (a write) happens
 }
 
 type C14Hist struct {
@@ -51,6 +52,15 @@ func genC14Hist(t *rapid.T) C14Hist {
 			}
 			writes++
 		}
+		if op.Kind == "reply" && i+1 < n && rapid.IntRange(0, 2).Draw(t, "hold") == 0 {
+			// the client's next datagram arrives while this reply is still on its way to the client
+			h.Ops[len(h.Ops)-1].Hold = true
+			w := C14Op{Kind: "write", DNS: rapid.Bool().Draw(t, "dns2"), Fail: rapid.IntRange(0, 5).Draw(t, "fail2") == 0}
+			h.Ops = append(h.Ops, w)
+			writes++
+			i++
+			continue
+		}
 		if op.Kind == "reply" && op.DNS && writes == 1 && firstDNS {
 			break // fast close: the association ends here
 		}
@@ -76,7 +86,8 @@ type natResp struct {
 	Closed   bool `json:"closed"`
 	MapEmpty bool `json:"map_empty"`
 	Replies  int  `json:"replies_relayed"`
-	Returned bool `json:"copy_returned"`
+	Returned  bool `json:"copy_returned"`
+	GoneEarly bool `json:"gone_early"`
 }
 
 var natExec struct {
@@ -128,6 +139,8 @@ func runC14Hist(h C14Hist, info *kit.Info) *kit.Finding {
 	}
 	writes, replies := 0, 0
 	firstDNS, hasDNS, hasPlain, fastCandidate := false, false, false, false
+	fastIdx := -1
+	latest := int64(0)
 	cur := int64(-1) // current deadline (ns since start), -1: never set
 	di := 0
 	for i, op := range h.Ops {
@@ -144,12 +157,14 @@ func runC14Hist(h C14Hist, info *kit.Info) *kit.Finding {
 			writes++
 			hasDNS = hasDNS || op.DNS
 			hasPlain = hasPlain || !op.DNS
+			// the latest instant any write so far entitles the association to
+			latest = max(latest, r.Ops[i].T1Ns+tau(op))
 			for _, c := range calls {
 				if c.ValueNs <= cur {
 					return kit.Violation("nat:deadline-moved-earlier", "op %d (write dns=%v): deadline set to %v, it was %v before", i, op.DNS, time.Duration(c.ValueNs), time.Duration(cur))
 				}
-				if c.ValueNs > r.Ops[i].T1Ns+tau(op) {
-					return kit.Violation("nat:deadline-too-late", "op %d (write dns=%v): deadline %v is later than the end of the write + its timeout %v", i, op.DNS, time.Duration(c.ValueNs), time.Duration(tau(op)))
+				if c.ValueNs > latest {
+					return kit.Violation("nat:deadline-too-late", "op %d (write dns=%v): deadline %v is later than any write so far allows (%v)", i, op.DNS, time.Duration(c.ValueNs), time.Duration(latest))
 				}
 				cur = c.ValueNs
 			}
@@ -160,7 +175,7 @@ func runC14Hist(h C14Hist, info *kit.Info) *kit.Finding {
 			replies++
 			allowed := op.DNS && writes == 1 && firstDNS && replies == 1
 			if allowed {
-				fastCandidate = true
+				fastCandidate, fastIdx = true, i
 				if len(calls) != 1 || calls[0].ValueNs > calls[0].AtNs {
 					return kit.Violation("nat:no-fast-close", "op %d: the only traffic was one DNS query and this is the first response from a DNS server, but the deadline was not set to now (calls %+v)", i, calls)
 				}
@@ -173,6 +188,16 @@ func runC14Hist(h C14Hist, info *kit.Info) *kit.Finding {
 				return kit.Violation("nat:unexpected-deadline-change", "op %d (%s): deadline changed to %v", i, op.Kind, time.Duration(calls[0].ValueNs))
 			}
 		}
+	}
+	fastClosed := false // a fast close that nothing undid: the history ends with it
+	if fastCandidate && fastIdx == len(h.Ops)-1 {
+		fastClosed = true
+	}
+	if r.GoneEarly && !fastClosed {
+		return kit.Violation("nat:removed-before-deadline", "the association was torn down although its deadline (%v after start) had not passed and no fast close applies (history of %d ops, last op %+v)", time.Duration(cur), len(h.Ops), h.Ops[len(h.Ops)-1])
+	}
+	if fastCandidate && !fastClosed {
+		info.Class("fast-close-overtaken-by-a-write")
 	}
 	if di < len(r.Deadlines) {
 		return kit.Violation("nat:unexpected-deadline-change", "deadline changed during expiry: %+v", r.Deadlines[di:])
